@@ -188,6 +188,28 @@ def _fmt_inverse_fn():
     return f
 
 
+class _Ver(object):
+    def __init__(self, a, b):
+        self.a, self.b = a, b
+
+    def __str__(self):
+        return "{0}.{1}".format(self.a, self.b)
+
+
+def _fmt_obj_fn():
+    def f(a: int, b: int) -> bool:
+        """
+        post: _
+        """
+        if not (0 <= a <= 99 and 0 <= b <= 9):
+            return True
+        t = "KMIP {0} x".format(_Ver(a, b))
+        if a == 12 and b == 3:
+            return t == "KMIP 12.3 x"
+        return t.startswith("KMIP ") and t.endswith(" x") and len(t) == 5 + (1 if a < 10 else 2) + 2 + 2
+    return f
+
+
 def check_models(failures, info):
     from kv import worker
     fns = []
@@ -197,6 +219,7 @@ def check_models(failures, info):
     fns.append(("char/bool", _char_fn()))
     fns.append(("int format vectors", _fmt_fn()))
     fns.append(("int format inverse", _fmt_inverse_fn()))
+    fns.append(("plain object format", _fmt_obj_fn()))
     info["models"] = []
     for name, fn in fns:
         r = worker.analyze(fn, 60)
